@@ -280,6 +280,41 @@ func VerifC14_Hooks() {
 		rt.Reach("hooks-put")
 		return
 	}
+	// operations that load the record, change it and put it back: a vetoed
+	// put leaves the stored record as it was
+	if h.replace == nil && !h.pre && !h.post && rt.Bool("domodify") {
+		var err error
+		switch rt.Choice("modify", 4) {
+		case 0:
+			err = iface.Delete("t:a/x")
+		case 1:
+			err = iface.SetAbsoluteExpiry("t:a/x", time.Now().Unix()+100)
+		case 2:
+			err = iface.MakeSecret("t:a/x")
+		case 3:
+			err = iface.SetRelativateExpiry("t:a/x", 60)
+		}
+		called := len(h.calls) == 1 && h.calls[0] == "preput"
+		rt.Assert(called == rt.All(active, h.put), "hooks/modify-preput-called-iff-declared-and-matching")
+		if rt.All(active, h.put, h.veto == 3) {
+			rt.Assert(errors.Is(err, errVeto), "hooks/modify-veto-returns-hook-error")
+			stored, serr := c.storage.Get("a/x")
+			rt.Assert(serr == nil, "hooks/modify-veto-record-still-stored")
+			if serr == nil {
+				m := stored.Meta()
+				rt.Assert(m.Deleted == 0, "hooks/vetoed-delete-leaves-record-undeleted")
+				rt.Assert(m.Expires == 0, "hooks/vetoed-expiry-change-leaves-expiry")
+				rt.Assert(m.GetRelativeExpiry() <= 0, "hooks/vetoed-expiry-change-leaves-relative-expiry")
+				rt.Assert(m.CheckPermission(true, false), "hooks/vetoed-flag-change-leaves-flags")
+			}
+			_, gerr := iface.Get("t:a/x")
+			rt.Assert(gerr == nil, "hooks/vetoed-modification-record-still-visible")
+		} else {
+			rt.Assert(err == nil, "hooks/modify-ok")
+		}
+		rt.Reach("hooks-modify")
+		return
+	}
 	// the stored record may be expired or (shadow-)deleted: the hooks still
 	// see what was loaded, and may replace it
 	storedState := rt.Choice("storedstate", 3)
